@@ -100,7 +100,9 @@ impl HdrRead {
 pub struct FramedWrite {}
 pub struct FramedRead {}
 impl FramedWrite { #[verifier::external_body] pub fn new(io: IoW, c: LdEncoder) -> (r: FrameWrite) ensures r.sent == io.sent { unimplemented!() } }
-impl FramedRead { #[verifier::external_body] pub fn new(io: IoR, c: LdDecoder) -> (r: FrameRead) ensures r.got == io.got, r.received == io.received, r.unread@ == Seq::<u8>::empty() { unimplemented!() } }
+impl FramedRead { #[verifier::external_body] pub fn new(io: IoR, c: LdDecoder) -> (r: FrameRead) ensures r.got == io.got, r.received == io.received, r.unread@ == Seq::<u8>::empty() { unimplemented!() }
+    /// tokio_util: as `new`, with an initial buffer capacity -- a new read half starts with an EMPTY buffer whatever its capacity
+    #[verifier::external_body] pub fn with_capacity(io: IoR, c: LdDecoder, capacity: usize) -> (r: FrameRead) ensures r.got == io.got, r.received == io.received, r.unread@ == Seq::<u8>::empty() { unimplemented!() } }
 pub struct Transport {}
 impl Transport {
     #[verifier::external_body]
